@@ -89,7 +89,8 @@ CHECKS = {
           "switches and the three receiver switches as solver Bools: class resolution for every built-in exception class, non-exception "
           "builtins, custom classes in imported / importable / unknown modules is compared with a specification table for all switch settings; "
           "dump->load round trips for all ~70 built-in classes and four argument shapes (symbolic members) check class fidelity, argument "
-          "normalisation and gated traceback/version; crafted payloads must not import or run a constructor (import log + constructor canaries)."),
+          "normalisation and gated traceback/version; crafted payloads must not import or run a constructor (import log + constructor canaries); "
+          "two loads in a row with independent switch settings (6 Bools) must each follow their own switches (no process-wide memo of permissions)."),
     note=("Trusted: z3, interpreter, a three-module model of sys.modules/__import__ inside vinegar. Class and name spaces are finite exhaustive "
           "choices, not solver variables (the property quantifies over finitely many built-in classes); the solver decides the switch space. "
           "Known finding (recorded, not repaired): ExceptionGroup/BaseExceptionGroup cannot be rebuilt by load() on Python >= 3.11."),
@@ -129,8 +130,8 @@ CHECKS = {
           "and nobody-can-move states only occur as the C14 stall. Counterexample schedules are replayed on real threads (sys.settrace gate, "
           "gated Condition, virtual-time channel)."),
     note=("Depth-bounded: all interleavings of the first 60 statement-steps (a complete hand-off by every thread takes about 45); the unwinding "
-          "assertion is NOT established and the evidence says so. Quick: 1 waiter + background thread, <=1 pre-emption; thorough: the same "
-          "exhaustively and 2 waiters with <=2 pre-emptions. Partial-order reduction (no switch before thread-local statements). Timeouts never "
+          "assertion is NOT established and the evidence says so. Quick: 1 waiter + background thread and 2 waiters without one (40 steps), <=1 "
+          "pre-emption each; thorough: 1 waiter + background thread exhaustively and 2 waiters with <=2 pre-emptions. Partial-order reduction (no switch before thread-local statements). Timeouts never "
           "fire in the model; itertools.count atomicity, incoming requests and EOF are outside."),
     technique="bounded model checking over schedules (AST -> CFG -> bit-vector transition relation, z3 SAT, parallel cubes) + replay on real threads"),
  "C14": dict(
@@ -150,7 +151,7 @@ CHECKS = {
           "async_request/_async_request/_box/_send and serve/_dispatch/_dispatch_request/_unbox/_handle_call/AsyncResult) against a frame-level "
           "peer, with symbolic Int/text/Bool leaves inside four argument shapes (positional, keyword, nested tuples mixing values and references), a "
           "symbolic sequence number and three answer kinds: exactly one CALL request carrying the target and equal (values) / identical (references) "
-          "arguments, target run exactly once, answer returned/raised exactly. Call trees (nodes alternating between the peers, fan-out<=2, "
+          "arguments with keyword order preserved, target run exactly once, answer returned/raised exactly. Call trees (nodes alternating between the peers, fan-out<=2, "
           "depth<=2 quick/3 thorough, every combination of raising and catching nodes) are run on two real connections and compared with the same "
           "tree evaluated in one process, including invocation order and mutation through reference arguments."),
     note=("Trusted: z3, interpreter, identity codec and frame list standing in for brine/Channel (C04/C05). The call-tree obligation is exhaustive "
@@ -163,7 +164,7 @@ CHECKS = {
           "tuple/frozenset subclass instances, own and foreign proxies) with symbolic contents, against the property's decision table: VALUE iff "
           "plain (type-exact), TUPLE member-wise, LOCAL_REF for the connection's own proxies, otherwise REMOTE_REF entered in the local object table. "
           "Identity (echo is the original, re-receipt is the same proxy, mutation reaches the owner) is run over all histories of length 4 (quick)/5 "
-          "(thorough) x 7 object kinds on two real connections; obtain/deliver are executed for 8 object kinds."),
+          "(thorough) x 12 object kinds (truthy and falsy targets) on two real connections; obtain/deliver are executed for 8 object kinds."),
     note=("Trusted: z3, interpreter. Only O1 is solver-decided; O2/O3 are exhaustive enumeration / direct execution on real connections "
           "(a loopback socket for O3). Nesting depth 1 (quick)/2 (thorough), arity <= 2."),
     technique="symbolic execution of the Python AST (boxing decision) + exhaustive differential histories on real connections"),
@@ -186,7 +187,9 @@ CHECKS = {
           "Strings, attribute existence an uninterpreted predicate; payloads and argument shapes (13 shapes mixing lent objects, names, values, "
           "tuples, identifiers; valid/stale/foreign/forged identifiers) are exhaustive choices. Assertions: nothing but objects lent on this "
           "connection or proxies bound to it can be obtained; every attribute touch/call on a lent object is permitted by the default policy oracle; "
-          "pickle, __import__, eval/exec (effect-logged sinks) are never reached; one response frame; other connections' tables untouched."),
+          "pickle, __import__, eval/exec (effect-logged sinks) are never reached; one response frame; other connections' tables untouched. "
+          "O4: a reference with a peer-chosen class (str, bytes, a str subclass, int) in the name/operator position, with every nested question the "
+          "victim asks about it (<=10) answered by a lie chosen exhaustively: touches still obey the policy."),
     note=("Trusted: z3, interpreter, identity codec/frame list (C04/C05), spy objects abstracting lent objects. The library's own fixed "
           "introspection reads while boxing (____id_pack__, ____conn__, __name__, __class__, __module__) are not counted as peer-directed accesses. "
           "Peer-chosen texts that get unpacked character-wise are enumerated up to 3 characters. What a lent callable does when legitimately "
@@ -219,6 +222,39 @@ CHECKS = {
           "objects of the caller's side are outside the property. A genuine defect (exception record with a failing repr tears the connection "
           "down) was first exposed here and is recorded under C08."),
     technique="symbolic execution of the Python AST (buffered iteration, z3 LIA) + exhaustive differential operation sequences on real connections"),
+ "C16": dict(
+    category="other", design_ref="DESIGN.md section 4 (C16)",
+    text=("Bounded symbolic execution of the real rpyc/utils/server.py (accept loop, per-client thread/process, thread-pool poller/workers/"
+          "bookkeeping; AST re-read from /repo each run) over a model of sockets, threads, processes and time: every history of 3 (quick)/4 "
+          "(thorough) external events over {well-behaved client connects / calls / leaves gracefully or abruptly, clients sending an absurd "
+          "length field, corrupt compressed data, an undecodable payload, a truncated header, resetting before the server looks, staying silent, "
+          "failing authentication} x {threaded, thread-pool, forking} x {no authenticator, token authenticator}; after each history a fresh "
+          "well-behaved client must be accepted and answered by its own service instance, the accept loop and pool threads must be alive, "
+          "earlier well-behaved clients must have been answered. Counterexample histories are re-executed by CPython on the real server.py; "
+          "the defects found are also demonstrated on real sockets (live/)."),
+    note=("Reduced scope, as DESIGN.md states: the decision variables are the history and the fault kind (finite, explored exhaustively by the "
+          "path explorer); the byte strings of misbehaving clients are concrete representatives per failure class -- arbitrary bytes at the "
+          "connection level are C04/C05/C07/C08 -- so the solver decides no data here. One settled interleaving per history; real kernels, "
+          "descriptor exhaustion, a pool worker pinned by a partial frame that never completes, one-shot and gevent servers are outside. "
+          "Trusted: the environment model (props/srv_world.py), interpreter (validated against CPython on 32 histories every run). "
+          "Known finding: a thread-pool server authenticates on its accept thread."),
+    technique="bounded symbolic execution of server.py over a modelled socket/thread/process environment (history and fault kind as decision variables); replay on CPython, live demonstration on real sockets"),
+ "C17": dict(
+    category="other", design_ref="DESIGN.md section 4 (C17)",
+    text=("Bounded symbolic execution of the real rpyc/utils/server.py (Server.start/accept/close/_authenticate_and_serve_client/_serve_client, "
+          "the four _accept_method variants incl. the forking parent and child branches, ThreadPoolServer poller/workers/_drop_connection/close) "
+          "over a model of sockets, threads, processes (fork duplicates descriptors) and time: every history of 3 (quick)/4 (thorough) external "
+          "events over {client connects / calls / leaves gracefully / leaves abruptly, silent client, client failing authentication, client that "
+          "resets before the server looks, close()} x 4 server classes x {no authenticator, token authenticator}, then close(): departed clients "
+          "are served by nobody and mentioned in no table (clients, fd_to_conn, poll registrations); after close() the listener is closed, every "
+          "connected client observes end-of-stream, every disconnect hook ran exactly once, tables are empty, server threads have ended, closing "
+          "again is harmless; a one-shot server accepts one connection and shuts down when it ends."),
+    note=("Reduced scope, as DESIGN.md states: decision variables are the history and the configuration (finite, explored exhaustively); one "
+          "settled interleaving per history; /proc/self/fd accounting, TCP promptness, SIGCHLD reaping, unix-socket path cleanup and races with a "
+          "thread that has not reached its next blocking call are outside. Trusted: environment model, interpreter (validated against CPython on 32 "
+          "histories every run), 'shut down and unreferenced = released'. Two genuine defects of the thread-pool server were found here and repaired "
+          "in /repo; ForkingServer.close() leaving its children serving is a recorded known finding (live demonstration under live/)."),
+    technique="bounded symbolic execution of server.py over a modelled socket/thread/process environment (history as decision variables); replay on CPython, live demonstration on real sockets/processes"),
 }
 
 NOT_YET = {}
@@ -252,7 +288,7 @@ def main():
                    source_commits=[], add_only=True),
         engines=[
             dict(name="engine-S", path="engine/interp.py", serves_properties=sorted(k for k, v in CHECKS.items() if v.get("engine", "engine-S") == "engine-S"),
-                 kind_free_text="path-forking symbolic interpreter over the Python AST of the real rpyc functions; z3 decides every branch and every obligation"),
+                 kind_free_text="path-forking symbolic interpreter over the Python AST of the real rpyc functions; z3 decides every data-dependent branch and obligation; finite choices (histories, shapes, fault kinds) are decision variables enumerated by the explorer"),
             dict(name="engine-B", path="engine/bmc.py", serves_properties=sorted(k for k, v in CHECKS.items() if v.get("engine") == "engine-B"),
                  kind_free_text="schedule-symbolic bounded model checking (bit-vector transition relation compiled from the AST), replay by sys.settrace-gated real threads"),
         ],
